@@ -48,6 +48,15 @@ type seqCase struct {
 	Workers    int       `json:"workers"` // lightweight helpers
 	Procs      int       `json:"procs"`
 	Shuffle    uint64    `json:"shuffle"` // fakedb delivery order of unordered queries (0 = ascending id)
+	Steps      []patStep `json:"steps,omitempty"` // helper "pattern": the chained expansions of traversal.NewPattern()
+}
+
+// patStep is one expansion of a traversal pattern.
+type patStep struct {
+	Inbound bool `json:"inbound"`
+	Min     int  `json:"min"`
+	Max     int  `json:"max"` // 0 = unbounded
+	Kind    int  `json:"kind"` // 0 none, 1 R, 2 S
 }
 
 type seqEdge struct {
@@ -56,7 +65,7 @@ type seqEdge struct {
 	K int `json:"k"` // 0 = R, 1 = S
 }
 
-var seqHelpers = []string{"paths", "intermediary", "nodes", "terminals", "lightweight", "lightweight-skiplimit"}
+var seqHelpers = []string{"paths", "intermediary", "nodes", "terminals", "lightweight", "lightweight-skiplimit", "lightweight-unique", "pattern"}
 
 var (
 	kindNames = []string{"A", "B"}
@@ -73,6 +82,49 @@ func genSeq(t *rapid.T) seqCase {
 		Workers:    rapid.IntRange(1, 4).Draw(t, "workers"),
 		Procs:      rapid.SampledFrom([]int{1, 2, 4, 16}).Draw(t, "procs"),
 		Shuffle:    uint64(rapid.IntRange(0, 3).Draw(t, "shuffle")),
+	}
+	if c.Helper == "pattern" {
+		c.Workers = rapid.SampledFrom([]int{2, 3, 4, 8}).Draw(t, "pworkers")
+		c.Procs = rapid.SampledFrom([]int{1, 2, 4, 16}).Draw(t, "pprocs")
+		for i, ns := 0, rapid.IntRange(1, 3).Draw(t, "nsteps"); i < ns; i++ {
+			st := patStep{Inbound: c.Inbound, Min: rapid.SampledFrom([]int{1, 1, 1, 0, 2}).Draw(t, "pmin"), Max: rapid.SampledFrom([]int{0, 0, 1, 2, 3}).Draw(t, "pmax"), Kind: rapid.SampledFrom([]int{0, 0, 1, 2}).Draw(t, "pkind")}
+			if st.Max != 0 && st.Max < st.Min {
+				st.Max = st.Min
+			}
+			c.Steps = append(c.Steps, st)
+		}
+	}
+	if c.Helper == "lightweight-unique" {
+		c.Workers = rapid.SampledFrom([]int{1, 2, 4, 8, 16}).Draw(t, "uworkers")
+		c.Procs = rapid.SampledFrom([]int{2, 4, 16, 16}).Draw(t, "uprocs")
+		if rapid.IntRange(0, 3).Draw(t, "fanin") != 0 {
+			// fan-in: root -> k middle nodes -> one junction -> a tail. The k segments that arrive at the junction are
+			// expanded at the same time by different workers and all of them consider the junction's outgoing edges.
+			k := rapid.IntRange(2, 24).Draw(t, "fan")
+			tail := rapid.IntRange(1, 3).Draw(t, "tail")
+			n := 1 + k + 1 + tail
+			for i := 0; i < n; i++ {
+				c.NodeKinds = append(c.NodeKinds, rapid.IntRange(0, 1).Draw(t, "nodeKind"))
+			}
+			c.Root = 1
+			edge := func(from, to int) {
+				e := seqEdge{S: from, E: to, K: 0}
+				if c.Inbound {
+					e.S, e.E = e.E, e.S
+				}
+				c.Edges = append(c.Edges, e)
+			}
+			junction := k + 2
+			for i := 0; i < k; i++ {
+				edge(1, 2+i)
+				edge(2+i, junction)
+			}
+			for i := 0; i < tail; i++ {
+				edge(junction+i, junction+i+1)
+			}
+			c.KindFilter = 0
+			return c
+		}
 	}
 	n := rapid.SampledFrom([]int{1, 2, 3, 4, 4, 5, 5, 6, 6, 7, 7}).Draw(t, "nodes")
 	for i := 0; i < n; i++ {
@@ -331,8 +383,14 @@ func seqOracle(c seqCase) (evid.Info, error) {
 	if c.Helper == "nodes" || c.Helper == "terminals" {
 		c.MaxDepth = 0
 	}
-	if c.Helper == "lightweight" || c.Helper == "intermediary" {
+	if c.Helper == "lightweight" || c.Helper == "intermediary" || c.Helper == "lightweight-unique" || c.Helper == "pattern" {
 		c.Skip, c.Limit = 0, 0
+	}
+	if c.Helper == "pattern" && (len(c.Steps) == 0 || len(c.Steps) > 4 || c.Workers < 1 || c.Workers > 16) {
+		return evid.Info{Skip: "outside domain"}, nil
+	}
+	if c.Helper == "lightweight-unique" {
+		c.MaxDepth = 0
 	}
 	lightweight := strings.HasPrefix(c.Helper, "lightweight")
 	if lightweight && (c.Workers < 1 || c.Workers > 16) {
@@ -384,6 +442,9 @@ func seqOracle(c seqCase) (evid.Info, error) {
 	var (
 		gotPaths    []string
 		gotNodes    = map[int]bool{}
+		admitted    = map[int]int{} // lightweight-unique: edge id -> times handed to the filter's delegate
+		patternSeq  []string        // pattern: terminals delivered with one worker
+		patternPar  []string        // pattern: terminals delivered with c.Workers workers
 		runErr      error
 		unsupported []string
 		mu          sync.Mutex
@@ -457,6 +518,48 @@ func seqOracle(c seqCase) (evid.Info, error) {
 					mu.Unlock()
 				})
 			runErr = traversal.New(db, c.Workers).BreadthFirst(ctx, traversal.Plan{Root: plan.Root, Driver: driver})
+		case "pattern":
+			// The oracle is the property's own: the pattern driver expanded by ONE worker (a sequential expansion from
+			// the root) against the same driver expanded by c.Workers workers.
+			for i, workers := range []int{1, c.Workers} {
+				pat := traversal.NewPattern()
+				for _, st := range c.Steps {
+					var crit []graph.Criteria
+					if st.Kind != 0 {
+						crit = append(crit, query.Kind(query.Relationship(), relKinds[st.Kind-1]))
+					}
+					if st.Inbound {
+						pat = pat.InboundWithDepth(st.Min, st.Max, crit...)
+					} else {
+						pat = pat.OutboundWithDepth(st.Min, st.Max, crit...)
+					}
+				}
+				sink := &patternSeq
+				if i == 1 {
+					sink = &patternPar
+				}
+				driver := pat.Do(func(terminal *graph.PathSegment) error {
+					key := graphPathKey(terminal.Path())
+					mu.Lock()
+					*sink = append(*sink, key)
+					mu.Unlock()
+					return nil
+				})
+				if runErr = traversal.New(db, workers).BreadthFirst(ctx, traversal.Plan{Root: plan.Root, Driver: driver}); runErr != nil {
+					return
+				}
+			}
+		case "lightweight-unique":
+			// the library's own stateful filter: every edge is admitted (handed to the delegate) at most once, whatever
+			// the number of workers
+			filter := traversal.UniquePathSegmentFilter(func(next *graph.PathSegment) bool {
+				mu.Lock()
+				admitted[int(next.Edge.ID)]++
+				mu.Unlock()
+				return c.segmentOK(next)
+			})
+			driver := traversal.LightweightDriver(c.direction(), graphcache.New(), c.criteria(), filter)
+			runErr = traversal.New(db, c.Workers).BreadthFirst(ctx, traversal.Plan{Root: plan.Root, Driver: driver})
 		case "lightweight-skiplimit":
 			filter := traversal.FilteredSkipLimit(
 				func(next *graph.PathSegment) (bool, bool) {
@@ -523,6 +626,54 @@ func seqOracle(c seqCase) (evid.Info, error) {
 			return evid.Info{}, fmt.Errorf("plan has %d paths, skip=%d limit=%d: want %d results, got %d (%v)", total, c.Skip, c.Limit, want, len(gotPaths), head(sortedKeys(got), 8))
 		}
 		classes = append(classes, "paths="+bucket(total, 0, 1, 2, 5, 20, 100))
+	case "pattern":
+		seq, par := multiset(patternSeq), multiset(patternPar)
+		for _, k := range sortedKeys(seq) {
+			if par[k] != seq[k] {
+				return evid.Info{}, fmt.Errorf("pattern %+v: terminal %s delivered %d times by one worker and %d times by %d workers", c.Steps, k, seq[k], par[k], c.Workers)
+			}
+		}
+		for _, k := range sortedKeys(par) {
+			if seq[k] == 0 {
+				return evid.Info{}, fmt.Errorf("pattern %+v: terminal %s delivered %d times by %d workers and never by one worker", c.Steps, k, par[k], c.Workers)
+			}
+		}
+		total = len(seq)
+		classes = append(classes, fmt.Sprintf("steps=%d", len(c.Steps)), "terminals="+bucket(len(patternSeq), 0, 1, 2, 5, 20, 100))
+	case "lightweight-unique":
+		ids := make([]int, 0, len(admitted))
+		for id := range admitted {
+			ids = append(ids, id)
+		}
+		sort.Ints(ids)
+		for _, id := range ids {
+			if admitted[id] > 1 {
+				return evid.Info{}, fmt.Errorf("UniquePathSegmentFilter admitted edge %d %d times with %d workers (a sequential expansion admits every edge at most once)", id, admitted[id], c.Workers)
+			}
+		}
+		// Which edges a plan admits: an edge is considered whenever a segment at its start node is expanded and
+		// admitted the first time that does not close a cycle. On a DAG that is every edge whose start node is the
+		// root or reachable; with cycles it depends on the visiting order and only "at most once, and reachable" holds.
+		wantEdges := map[int]bool{}
+		for from, steps := range ref.adj {
+			if from != c.Root && !reached[from] {
+				continue
+			}
+			// (an edge into the banned node is still considered and admitted; only the descent stops there)
+			for _, st := range steps {
+				wantEdges[st.edge] = true
+			}
+		}
+		for _, id := range ids {
+			if !wantEdges[id] {
+				return evid.Info{}, fmt.Errorf("edge %d admitted but its start node is not reachable under the plan", id)
+			}
+		}
+		if !consideredEdgesCloseCycle(ref, c.Root, wantEdges) && len(ids) != len(wantEdges) {
+			return evid.Info{}, fmt.Errorf("acyclic plan with %d edges to consider, %d admitted (%v)", len(wantEdges), len(ids), ids)
+		}
+		total = len(wantEdges)
+		classes = append(classes, "edges="+bucket(len(wantEdges), 0, 1, 2, 5, 20, 100), fmt.Sprintf("procs=%d", c.Procs))
 	case "nodes":
 		want := map[int]bool{}
 		for v := range reached {
@@ -552,6 +703,25 @@ func seqOracle(c seqCase) (evid.Info, error) {
 			}
 			if c.Limit > 0 && others > c.Limit {
 				return evid.Info{}, fmt.Errorf("limit %d but %d nodes besides the root returned: %v", c.Limit, others, sortedInts(gotNodes))
+			}
+			// When every reachable node has exactly one way in (and the root is not reached again) each node is a
+			// candidate exactly once: then skip/limit count the nodes that pass the node filter, nothing else, and the
+			// size of the result is fixed even though its members depend on the visiting order.
+			oneWayIn := !reached[c.Root]
+			for v := range reached {
+				if inDegree[v] > 1 {
+					oneWayIn = false
+				}
+			}
+			if oneWayIn {
+				eligible := len(want)
+				if rootCounts {
+					eligible--
+				}
+				if wantOthers := wantCount(eligible, c.Skip, c.Limit); others != wantOthers {
+					return evid.Info{}, fmt.Errorf("every reachable node is reached once and %d of them pass the node filter; skip=%d limit=%d: want %d nodes besides the root, got %d (%v)", eligible, c.Skip, c.Limit, wantOthers, others, sortedInts(gotNodes))
+				}
+				classes = append(classes, "limited-node-set-size-fixed")
 			}
 			if c.Skip == 0 && c.Limit == 0 && len(gotNodes) != len(want) {
 				return evid.Info{}, fmt.Errorf("node set %v, the plan defines %v", sortedInts(gotNodes), sortedInts(want))
@@ -597,6 +767,37 @@ func seqOracle(c seqCase) (evid.Info, error) {
 		NonTrivial: len(reached) >= 2 || total >= 2,
 		Classes:    classes,
 	}, nil
+}
+
+// consideredEdgesCloseCycle: does a walk from the root over the considered edges (banned targets included) ever
+// return to a node it has on its path? Only then may the unique-edge filter reject a considered edge as a cycle.
+func consideredEdgesCloseCycle(r *seqRef, root int, edges map[int]bool) bool {
+	const (
+		white = iota
+		grey
+		black
+	)
+	colour := map[int]int{}
+	var visit func(v int) bool
+	visit = func(v int) bool {
+		colour[v] = grey
+		for _, st := range r.adj[v] {
+			if !edges[st.edge] {
+				continue
+			}
+			switch colour[st.next] {
+			case grey:
+				return true
+			case white:
+				if visit(st.next) {
+					return true
+				}
+			}
+		}
+		colour[v] = black
+		return false
+	}
+	return visit(root)
 }
 
 func seqIota(n int) []int {
